@@ -26,7 +26,7 @@ def tag_of(data):
 
 VARIANTS = ['upgrade_ok', 'upgrade_fail_frame', 'upgrade_fail_close', 'polling_only', 'ws_only',
             'two_sessions', 'close_during', 'upgrade_no_pending_poll', 'backlog_polling', 'backlog_ws',
-            'backlog_upgrade', 'overlapping_opens', 'upgrade_fail_accept', 'backlog_ping', 'ws_send_fault', 'upgraded_send_fault']
+            'backlog_upgrade', 'overlapping_opens', 'upgrade_fail_accept', 'backlog_ping', 'ws_send_fault', 'upgraded_send_fault', 'backlog_closing']
 
 
 class _SlowConnect:
@@ -112,6 +112,41 @@ class Delivery(core.Scenario):
         self.scripts = [[burst(0, a, 'burst-before-ping', None), burst(a, a + b, 'burst-after-ping', 1.0625),
                          core.Action('poll', poll, None, 1.125)]]
 
+    def build_backlog_closing(self):
+        """A backlog larger than one payload while the session is in the middle of its own close (the disconnect handler
+        is asleep): the polls that arrive in that window are bounded like any other."""
+        p = self.params
+
+        class Sleepy(_SlowConnect):
+            def connect(self, sid, environ):
+                return []
+
+            def disconnect(self, sid, reason):
+                return [('sleep', 0.25)]
+        w = self.world = peer.make_world(p['impl'], server_kwargs=dict(ping_interval=50, ping_timeout=50, async_handlers=False),
+                                         behaviour=Sleepy())
+        self.horizon = 0.5
+        self.sends, self.polls, self.ws = [], {}, {}
+        self.fail_step = None
+        self.B = None
+        A = self.A = peer.sid_of(peer.open_polling(w))
+        self.polls[A] = []
+        self.closed_by_client = {A: 0}       # the application ends the session: completeness is not owed, boundedness is
+        k = p['k']
+
+        def burst(sc):
+            c = sc.world.call_seq('send', [(A, PAYLOADS[i]) for i in range(k)])
+            for i in range(k):
+                sc.sends.append((tag_of(PAYLOADS[i]), A, c, sc.world.nstep))
+
+        def disc(sc):
+            sc.world.call('disconnect', A)
+
+        def poll(sc):
+            sc.polls[A].append(peer.poll(sc.world, A, run=False))
+        self.scripts = [[core.Action('burst%d' % k, burst), core.Action('disconnect', disc), core.Action('poll', poll),
+                         core.Action('poll2', poll, lambda sc: sc.polls[A] and sc.polls[A][-1].done)]]
+
     def finish_backlog_ping(self):
         w = self.world
         self.drain(self.A)
@@ -132,6 +167,8 @@ class Delivery(core.Scenario):
             return self.build_overlapping()
         if p['variant'] == 'backlog_ping':
             return self.build_backlog_ping()
+        if p['variant'] == 'backlog_closing':
+            return self.build_backlog_closing()
         impl, variant, k = p['impl'], p['variant'], p['k']
         w = self.world = peer.make_world(impl, server_kwargs=dict(ping_interval=50, ping_timeout=50, async_handlers=False))
         self.sends = []      # (tag, sid, call)
@@ -290,6 +327,10 @@ class Delivery(core.Scenario):
         s = self.ws.get(sid)
         if s is not None:
             for i, f in enumerate(s.frames):
+                if isinstance(f[2], str) and f[2][:1] == 'b' and not getattr(self, '_b64_flagged', False):
+                    self._b64_flagged = True
+                    self.flag('binary_as_text_on_websocket', 'a binary message was written to the WebSocket as the text frame %r '
+                              '(base64 is the representation for text-only channels)' % (f[2][:24],), trigger=self.params['variant'])
                 t, d = peer.decode_frame(f[2])
                 if t == 4:
                     obs.append((f[1], i, tag_of(d), 'websocket', f[1]))
@@ -301,6 +342,15 @@ class Delivery(core.Scenario):
         p = self.params
         if p['variant'] == 'overlapping_opens':
             return self.finish_overlapping()
+        if p['variant'] == 'backlog_closing':
+            self.world.run_until(self.horizon)
+            for r in self.polls[self.A]:
+                if r.done and r.status == 200:
+                    pk = peer.decode_body(r.text())
+                    if len(pk) > 16:
+                        self.flag('batch_over_receiver_limit', 'a poll answered while the session was closing carries %d packets; receivers '
+                                  'refuse bodies of more than 16' % len(pk), trigger='backlog_closing')
+            return
         if p['variant'] == 'backlog_ping':
             self.finish_backlog_ping()
         for sid in [self.A] + ([self.B] if self.B else []):
@@ -379,6 +429,8 @@ def param_list(ctx):
                 ks = (3,)
             if v.startswith('backlog'):
                 ks = (17, 20, 40)
+            if v == 'backlog_closing':
+                ks = (20, 40)
             if v == 'backlog_ping':
                 ks = (515, 1406, 115, 1505)      # a * 100 + b: a messages before the PING, b after it
             if not ctx.quick and v in ('polling_only', 'upgrade_fail_close', 'upgrade_no_pending_poll'):
